@@ -101,6 +101,8 @@ def compare(s, t):
         return out if m["dig"] == "" else ["result resolves although nothing should have been pushed"]
     names = ["root"] if s["img"]["shape"] == "image" else ["root/m0", "root/m1"]
     ev = t["events"]
+    if not m.get("facts"):
+        return ["result not audited (the returned reference does not resolve)"]
     for n, k in zip(names, e["kids"]):
         f = m["facts"].get(n)
         if f is None:
